@@ -11,17 +11,25 @@ PCS = ["Idle", "AddLoadIgen", "AddScan", "AddFinal", "IncLoad", "IncCas", "AddDi
        "RemIncChange", "RecDist2", "RecLoadCell", "RecPDist0", "RecLoadGen", "RecPDist1", "RecRead", "RecValidate", "RecCasCell",
        "RecSDist0", "RecCasGen", "RecEnd", "RecIncChange", "UpdDist0", "UpdLoadGen", "UpdDist1", "UpdCopy", "UpdValidate"]
 
-# genuine defects of /repo found by this check (crash / recover path); matched against known_findings.json by key
-KEYS = {
-    "crashed-add": ("container:recover-after-crashed-add-marks-slot-occupied",
-                    "Container::recover of an owner that died inside add() (index acquired, element generation still even) "
-                    "increments the even generation: readers list a never-added entry in a free slot"),
-    "crash-collateral": ("container:recover-after-crashed-add-marks-slot-occupied",
-                         "Container::recover of an owner that died inside add() flips the generation of a slot that a concurrent add is filling"),
-    "crashed-remove": ("container:crashed-remove-leaves-entry",
-                       "an owner that died inside Container::remove() between index_set.release and the generation CAS leaves its "
-                       "entry listed for ever: recover() does not find the (already released) index"),
-}
+# genuine defect of /repo recorded as a known finding (matched against known_findings.json by key): the owner dies
+# inside remove() after index_set.release and before the generation CAS.  (The sibling defect -- recover() of an owner
+# that died inside add() made the even generation odd -- was repaired in /repo by 4d1fc1a; its schedules A<id>k1..9,x1
+# are part of the enumerated programs and must pass.)
+KEY_CRASHED_REMOVE = "container:crashed-remove-leaves-entry"
+WHAT_CRASHED_REMOVE = ("an owner that died inside Container::remove() between index_set.release and the generation CAS leaves its "
+                       "entry listed for ever: recover() does not find the (already released) index")
+
+
+def classify(line):
+    """key, text for an oracle failure line of the driver"""
+    m = re.search(r"class=([\w-]+)", line)
+    cls = m.group(1) if m else "none"
+    if cls == "crashed-remove":
+        hdr = re.search(r"header=\[(\d+) (\S+)", line)
+        ks = [int(k) for k in re.findall(r"R\d+k(\d+)", hdr.group(2))] if hdr else []
+        if ks and all(k >= 4 for k in ks):      # the release (4th access of remove) was performed
+            return KEY_CRASHED_REMOVE, WHAT_CRASHED_REMOVE
+    return None, None
 
 
 def run(ctx):
@@ -79,7 +87,7 @@ def run(ctx):
         m = re.search(r"class=([\w-]+)", line)
         cls = m.group(1) if m else "none"
         ctx.cov["oracle_failures_by_class"][cls] = ctx.cov["oracle_failures_by_class"].get(cls, 0) + 1
-        key, what = KEYS.get(cls, (None, None))
+        key, what = classify(line)
         if (key or "none") in seen:
             continue
         seen.add(key or "none")
@@ -90,7 +98,7 @@ def run(ctx):
         replay = "%s one %s '%s' '%s' | %s" % (exe, hdr[1] if len(hdr) > 2 else "?", hdr[2] if len(hdr) > 2 else "?", sline[0][2:] if sline else "", driver)
         ctx.violation((what + ": " if what else "registry snapshot property violated by the implementation under a concrete schedule: ") + line,
                       {"execution": hist, "harness_cmd": cmd, "how_to_rerun": replay}, key=key)
-    if model_mm and not [m for m in spec_mm if "class=none" in m[2]]:
+    if model_mm and not [m for m in spec_mm if classify(m[2])[0] is None]:
         lbl, cmd, line = model_mm[0]
         case_no = int(line.split("case=")[1].split()[0])
         hist = vlib.extract_case(cmd.split(), driver, case_no)
